@@ -14,10 +14,12 @@
 //
 // # Documented choices
 //
-//   - pairs/next order: the array part 1..n (the maximal run of consecutive non-nil integer keys
-//     starting at 1) in index order, then all other keys in insertion order. A key that is
-//     removed and inserted again moves to the end. Real Lua's order for non-sequence keys is
-//     unspecified.
+//   - pairs/next order: first the array part in index order, then all other keys in insertion
+//     order. The array part consists of the integer keys 1..n that were, at some point, a run of
+//     consecutive non-nil keys starting at 1 (keys set out of order join it as soon as the gap
+//     closes); clearing such a key leaves a skipped slot. A non-array key that is removed and
+//     inserted again moves to the end. Fields may be cleared during a traversal, as in Lua.
+//     Real Lua's order for non-sequence keys is unspecified.
 //   - The length operator (and table.insert/remove/concat/unpack, which use it) is exact for
 //     sequences. For a table that has positive integer keys beyond its border (a table "with
 //     holes") real Lua's answer depends on the internal table layout, so ErrUnsupported is
@@ -94,7 +96,11 @@ func Run(script string, keys, argv []string, call func(argv []string) resp.Value
 // with the command's arguments. The returned value is the script's result converted by the Redis
 // Lua->RESP rules, or a resp.Err value when the script raises an error. The error is non-nil only
 // for ErrUnsupported.
-func (p *Program) Run(keys, argv []string, call func(argv []string) resp.Value) (out resp.Value, err error) {
+func (p *Program) Run(keys, argv []string, call func(argv []string) resp.Value) (resp.Value, error) {
+	return p.run(keys, argv, call, Budget)
+}
+
+func (p *Program) run(keys, argv []string, call func(argv []string) resp.Value, budget int) (out resp.Value, err error) {
 	defer func() {
 		if r := recover(); r != nil {
 			out = resp.Value{}
@@ -114,6 +120,7 @@ func (p *Program) Run(keys, argv []string, call func(argv []string) resp.Value) 
 		return resp.Value{}, fmt.Errorf("%w: nil program", ErrUnsupported)
 	}
 	in := newInterp(keys, argv, call)
+	in.budget = budget
 	rets := in.callClosure(&closure{proto: p.main}, nil)
 	var first value
 	if len(rets) > 0 {
